@@ -1,4 +1,4 @@
-\* implementation as it is now, archive WITHOUT listfile, unencrypted: compact() refuses (2d95992) instead of dropping; refines MpqMap
+\* implementation as it is now, archive WITHOUT listfile: compact() refuses instead of dropping; satisfies everything the design does
 CONSTANTS
   H = 4
   UNames <- MCNames
@@ -6,7 +6,7 @@ CONSTANTS
   InitSeq <- MCInit
   InitTok <- MCInitTok
   InitRaw = {}
-  SubOf <- NoSub
+  SubOf <- MCSub
   HasLF0 = FALSE
   HasAT0 = FALSE
   Slack = 2
@@ -14,7 +14,7 @@ CONSTANTS
   Ver = 1
   MaxCalls = 4
   MCToks = {"t1"}
-SPECIFICATION CodeOkSpec
+SPECIFICATION CodeNowSpec
 INVARIANT SlotType TableInv ProbeBounded TablesDisjointFromData NoDamage AbsClean
 PROPERTY AbsSpec OpRefines AtomicRefines
 CHECK_DEADLOCK FALSE
